@@ -282,6 +282,14 @@ func atom(r *Rng) *Ft {
 	}
 }
 
+// RandomTreeTop is RandomTree, now and then much deeper than asked (5 to 11 levels more).
+func RandomTreeTop(r *Rng, depth int) *Ft {
+	if r.Chance(1, 12) {
+		depth += 5 + r.Intn(7)
+	}
+	return RandomTree(r, depth)
+}
+
 // RandomTree builds a random syntax tree of at most the given depth.
 func RandomTree(r *Rng, depth int) *Ft {
 	if depth <= 0 || r.Chance(1, 5) {
